@@ -174,14 +174,15 @@ def main(tier):
         raise common.MachineryError("the specification itself violates %s\n%s" % (r.violated, "\n".join(common.tlc_counterexample(r.stdout, 60))))
     sd = common.seed()
     if thorough:
-        runs = [(4, "all", 1, 0), (5, "mut", 2, sd % 2), (5, "all", 4, sd % 4)]
+        runs = [(4, "all", 1, 0), (5, "mut", 2, common.sample_seed()), (5, "all", 4, common.sample_seed(1))]
     else:
-        runs = [(3, "all", 1, 0), (4, "all", 8, sd % 8), (5, "mut", 40, sd % 40)]
+        runs = [(3, "all", 1, 0), (4, "all", 8, common.sample_seed()), (5, "mut", 40, common.sample_seed(1))]
     n = 0
     ops = {}
     for depth, opset, every, offset in runs:
         e = env(depth, opset, "all" if every == 1 else "sample", every, offset)
-        r = common.run_tlc("MC_USM", "MC_USM.cfg", bd, env=e, workers=1, coverage=False, tag="emit-%d-%s" % (depth, opset), timeout=6000)
+        r = common.run_tlc("MC_USM", "MC_USM.cfg", bd, env=e, workers=1 if every == 1 else 8, coverage=False,
+                           tag="emit-%d-%s" % (depth, opset), timeout=6000)
         rep.add_tlc("emission depth %d ops=%s every=%d" % (depth, opset, every), r)
         trs = r.tagged("TR")
         if not trs:
